@@ -548,7 +548,7 @@ class Samples(BaseSamples):
             dtype = convert_dtype(self.dtype, xp)
         else:
             dtype = resolve_dtype(dtype, xp)
-        return self.__class__(
+        samples = self.__class__(
             x=self.x,
             parameters=self.parameters,
             log_likelihood=self.log_likelihood,
@@ -565,9 +565,24 @@ class Samples(BaseSamples):
             xp=xp,
             dtype=dtype,
         )
+        self._carry_evidence(samples)
+        return samples
+
+    def _carry_evidence(self, samples):
+        """Keep the evidence of this set on a converted copy.
+
+        The constructor recomputes the evidence of weighted samples from
+        their rows, which is not the evidence a selection carries over from
+        its parent set.
+        """
+        if samples.log_w is not None:
+            for key in ("log_evidence", "log_evidence_error"):
+                value = getattr(self, key)
+                if value is not None:
+                    setattr(samples, key, samples.array_to_namespace(value))
 
     def to_numpy(self):
-        return self.__class__(
+        samples = self.__class__(
             x=to_numpy(self.x),
             parameters=self.parameters,
             log_likelihood=to_numpy(self.log_likelihood)
@@ -585,6 +600,8 @@ class Samples(BaseSamples):
             else None,
             dtype=convert_dtype(self.dtype, np),
         )
+        self._carry_evidence(samples)
+        return samples
 
     def to_dataframe(self, include: list[str] | None = None) -> "pd.DataFrame":
         """Convert the samples to a pandas DataFrame.
